@@ -231,6 +231,8 @@ struct SlotInfo
 struct Prepared
 {
   quill::MacroMetadata const* md{nullptr};
+  bool dynamic_level{false};                    // log_statement<false, true>: the level travels at the end of the record
+  quill::LogLevel level{quill::LogLevel::Info}; // level the sink must see
   // per argument: call-site texts of the elements of an unordered container (empty vector for other arguments)
   std::vector<std::vector<std::string>> uelems;
 };
@@ -258,7 +260,6 @@ struct Ctx
   std::byte* rt_buffer(size_t sz);
   bool rt_after_encode(Prepared* p, std::byte* b, std::byte* w, size_t sz);
   bool rt_after_decode(Prepared* p, std::byte* b, std::byte* rp, size_t sz);
-  void before_log(Prepared* p);
   void after_log(Prepared* p, bool accepted);
   void abandon(Prepared* p);
 };
@@ -292,6 +293,8 @@ std::vector<ShapeEntry> shapes_3();
 std::vector<ShapeEntry> shapes_4();
 std::vector<ShapeEntry> shapes_5();
 std::vector<ShapeEntry> shapes_6();
+std::vector<ShapeEntry> shapes_7();
+std::vector<ShapeEntry> shapes_8();
 
 // =====================================================================================================================
 // Val<T>: value generator / clobber / classification of every type that can appear as (part of) an argument
@@ -1065,7 +1068,8 @@ struct Stmt
 {
   static void run(Ctx& cx)
   {
-    SlotInfo const info[] = {S::info()...};
+    std::array<SlotInfo, sizeof...(S)> const info_arr{{S::info()...}};
+    SlotInfo const* const info = info_arr.data();
     Prepared* p = cx.plan(info, sizeof...(S));
     if (!p) return;
     std::tuple<S...> sl;
@@ -1086,8 +1090,9 @@ struct Stmt
           cx.abandon(p); // size accounting already failed: logging it would trip quill's assert / desynchronise
           return;
         }
-        cx.before_log(p);
-        bool const ok = cx.logger->template log_statement<false, false>(quill::LogLevel::None, p->md, s.arg()...);
+        bool const ok = p->dynamic_level
+          ? cx.logger->template log_statement<false, true>(p->level, p->md, s.arg()...)
+          : cx.logger->template log_statement<false, false>(quill::LogLevel::None, p->md, s.arg()...);
         cx.after_log(p, ok);
         // deep copy: overwrite / destroy every argument before the backend gets to run
         (s.clobber(cx), ...);
